@@ -80,8 +80,79 @@ def detect(d):
     return res
 
 
+def _refresh_one(args):
+    sid, prop = args
+    sys.path.insert(0, '/verif')
+    import importlib
+    from sa.core import Repo, AnalysisError, DEFAULT_ROOT
+    from sa.selftest import apply_unified_diff
+    diff = open(os.path.join(sid, 'patch.diff') if os.path.isabs(sid) else '/verif/seeded/%s/patch.diff' % sid).read()
+    touched = [l[6:].strip() for l in diff.splitlines() if l.startswith('+++ b/')]
+    try:
+        files = {t: open(os.path.join(DEFAULT_ROOT, t), encoding='utf-8').read() for t in touched}
+        ov = apply_unified_diff(files, diff)
+    except (OSError, ValueError, KeyError) as e:
+        return sid, prop, None, 'patch does not apply: %s' % e
+    mod = importlib.import_module('sa.rules.' + prop.lower())
+
+    def keys(o):
+        out, floor_err = set(), None
+        for r in mod.rules(Repo(DEFAULT_ROOT, o), 'quick'):
+            out |= {(f.rule, f.key) for f in r.findings}
+            try:
+                r.check_floor()
+            except AnalysisError as e:
+                floor_err = e
+        return out, floor_err
+    try:
+        base, _ = keys(None)
+        got, ferr = keys(ov)
+    except AnalysisError as e:
+        return sid, prop, ['ANALYSIS-ERROR'], None
+    new = sorted({k[0] for k in got - base})
+    if not new and ferr is not None:       # like the CLI: findings first, a lost anchor alone is the fail-closed exit 2
+        new = ['ANALYSIS-ERROR']
+    return sid, prop, new, None
+
+
+def refresh():
+    """recompute seeded/DETECTION.json: for every stored seed, which rules of which property's check report something new (in memory)"""
+    from concurrent.futures import ProcessPoolExecutor
+    seeds = sorted(d for d in os.listdir('/verif/seeded') if os.path.isdir('/verif/seeded/' + d))
+    props = built_props()
+    work = [(s, p) for s in seeds for p in props]
+    table = {s: {'property': json.load(open('/verif/seeded/%s/meta.json' % s))['property'], 'detected_by': {}, 'error': None} for s in seeds}
+    with ProcessPoolExecutor(16) as ex:
+        for sid, prop, rules_, err in ex.map(_refresh_one, work, chunksize=4):
+            if err:
+                table[sid]['error'] = err
+            elif rules_:
+                table[sid]['detected_by'][prop] = rules_
+    json.dump(table, open('/verif/seeded/DETECTION.json', 'w'), indent=1, sort_keys=True)
+    own = [s for s in seeds if table[s]['property'] in table[s]['detected_by']]
+    anyp = [s for s in seeds if table[s]['detected_by']]
+    print('%d seeds; %d caught by their own property check, %d by any; missed: %s' % (len(seeds), len(own), len(anyp), [s for s in seeds if s not in own]))
+    print('errors:', {s: table[s]['error'] for s in seeds if table[s]['error']})
+
+
 if __name__ == '__main__':
     mode = sys.argv[1]
+    if mode == 'refresh':
+        refresh()
+        sys.exit(0)
+    if mode == 'mdetect':     # in-memory detection of seed directories anywhere (does not touch /repo)
+        from concurrent.futures import ProcessPoolExecutor
+        dirs = [os.path.abspath(d) for d in sys.argv[2:]]
+        tab = {}
+        with ProcessPoolExecutor(16) as ex:
+            for sid, prop, rules_, err in ex.map(_refresh_one, [(d, p) for d in dirs for p in built_props()], chunksize=2):
+                if err:
+                    tab.setdefault(os.path.basename(sid), {})['error'] = err
+                elif rules_:
+                    tab.setdefault(os.path.basename(sid), {})[prop] = rules_
+        for d in dirs:
+            print(os.path.basename(d), tab.get(os.path.basename(d), {}))
+        sys.exit(0)
     for d in sys.argv[2:]:
         r = confirm(d) if mode == 'confirm' else detect(d)
         print(json.dumps(r, indent=1))
